@@ -111,8 +111,11 @@ def gen_binding_cases(rnd, n):
         pos = rnd.randrange(k)
         nm = names[pos]
         spell = rnd.choice(['dq', 'sq', 'repr', 'attr', 'direct'])
-        if all(re.match(r'^[_a-zA-Z][_a-zA-Z0-9]*$', x) for x in names) and rnd.random() < 0.6:
+        safe_direct = all(x in ('id', 'name', 'b_2', 'col', 'x1', 'zz', 'Total') for x in names)   # no clash with RBQL's own variables (NR, a1, …)
+        if safe_direct and rnd.random() < 0.6:
             spell = 'direct'
+        elif spell == 'direct' and not safe_direct:
+            spell = 'dq'
         fe = rnd.choice(['list', 'list', 'csv', 'pandas', 'sqlite']) if spell != 'direct' else 'list'
         normalize = True
         if spell == 'dq':
